@@ -45,8 +45,13 @@ _ASSUMPTIONS_VIRTUAL = [
     "timer(d, p) with an absolute d uses d >= now",
 ]
 
-RULE = _RULE_VIRTUAL
-ASSUMPTIONS = list(_ASSUMPTIONS_VIRTUAL)
+# real-time half: all of it lives in vlib/periodic_rt.py (Engine DET); this module only appends its checks / rule / assumptions
+from vlib import periodic_rt as _rt  # noqa: E402
+
+_RULE_REALTIME = _rt.RULE
+_ASSUMPTIONS_REALTIME = _rt.ASSUMPTIONS
+RULE = _RULE_VIRTUAL + " " + _RULE_REALTIME
+ASSUMPTIONS = list(_ASSUMPTIONS_VIRTUAL) + list(_ASSUMPTIONS_REALTIME)
 
 _F = {
     "inc": lambda s: (s or 0) + 1 if not isinstance(s, str) else s + "+",
@@ -396,7 +401,7 @@ def _virtual_checks(tier):
 def _realtime_checks(tier):
     """Real-time half (controlled clock; EventLoopScheduler, NewThreadScheduler, CatchScheduler(EventLoop)): append
     Check entries here and extend RULE / ASSUMPTIONS with a `_RULE_REALTIME` / `_ASSUMPTIONS_REALTIME` piece."""
-    return []
+    return _rt.checks(tier)
 
 
 def checks(tier):
